@@ -116,11 +116,17 @@ def regOf (init : List (String × Bool)) (h : List HOp) (g : String) : Option (N
   if init.any (·.1 == g) then some (0, 0) else
   (h.find? fun o => o.kind == .reg g).map fun o => (o.inv, o.res)
 
+/-- the latest start among the writes that were over before `rinv`: a write that
+    finished before this instant was overwritten for sure before `rinv` -/
+def lastDone (ws : List W) (rinv : Nat) : Nat :=
+  ws.foldl (fun m w => if w.res < rinv then max m w.inv else m) 0
+
 /-- value `v` is the gate's value at some instant inside [rinv, rres]: some write of
-    `v` began before the interval ended and is not overwritten for sure before it began -/
+    `v` began before the interval ended and is not overwritten for sure before it began
+    (no other write started after it finished and was itself over before `rinv`) -/
 def mayBe (ws : List W) (rinv rres : Nat) (v : Bool) : Bool :=
-  ws.any fun w => w.val == v && decide (w.inv < rres) &&
-    !(ws.any fun w' => decide (w.res < w'.inv) && decide (w'.res < rinv))
+  let m := lastDone ws rinv
+  ws.any fun w => w.val == v && decide (w.inv < rres) && !(decide (w.res < m))
 
 def strictlySorted : List String → Bool
   | a :: b :: rest => decide (a < b) && strictlySorted (b :: rest)
